@@ -38,17 +38,8 @@ def main():
     if a.replay:
         # replay in a child with the same environment as a worker
         env = harness.child_env(seed, 0)
-        with open(a.replay) as f:
-            obj = json.load(f)
-        code = ("import sys,json; from vlib import harness; "
-                "f=harness.replay_one(%r, %r); "
-                "print('replay passes: the recorded case no longer fails') if f is None else "
-                "print(('VIOLATION property=%s replay=%s\\n  ' %% (%r, %r) if f['kind']=='violation' else 'HARNESS-ERROR ') "
-                "+ str(f['message'])); "
-                "sys.exit(0 if f is None else (1 if f['kind']=='violation' else 2))"
-                % (prop, os.path.abspath(a.replay), prop, os.path.abspath(a.replay)))
-        del obj
-        return subprocess.call([harness.python_exe(), "-c", code], env=env, cwd=VERIF)
+        return subprocess.call([harness.python_exe(), "-m", "vlib.harness", "replay", prop,
+                                os.path.abspath(a.replay)], env=env, cwd=VERIF)
     return harness.parent_main(prop, a.tier, seed, a.shards, a.only, a.budget, a.verbose)
 
 
